@@ -35,12 +35,24 @@ func rulesC09(p *Prog, r *Report) {
 	v2ULB := p.MustFunc("x/liquidationsV2/keeper.Keeper.UpdateLockedBorrows")
 
 	// R09.1 ------------------------------------------------------------------------
-	r.Rule("R09.1", "seizure only through ratio < MinCr (vaults) / ratio > threshold (borrows), ratio over the position's own record", 12)
+	r.Rule("R09.1", "seizure only through ratio < MinCr (vaults) / ratio > threshold (borrows), ratio over the position's own record", 10)
 	isVaultRatio := func(v ssa.Value) bool { return p.allOriginsAreCall(v, "CalculateCollateralizationRatio", 0) }
 	isMinCr := func(v ssa.Value) bool { return p.originHasField(v, "ExtendedPairVault", "MinCr") }
 	vaultGuard := p.cmpGuard("ratio < liquidation ratio (MinCr)", isVaultRatio, isMinCr, RLT)
 	isThreshold := func(v ssa.Value) bool {
-		return p.originHasField(v, "AssetRatesParams", "LiquidationThreshold") || p.originHasField(v, "AssetRatesParams", "ELiquidationThreshold")
+		if !(p.originHasField(v, "AssetRatesParams", "LiquidationThreshold") || p.originHasField(v, "AssetRatesParams", "ELiquidationThreshold")) {
+			return false
+		}
+		// and nothing else of the rate parameters (an LTV is not a liquidation threshold)
+		for _, o := range p.DeepOrigins(v) {
+			if len(o.Path) == 0 || pathBaseTypeName(o) != "AssetRatesParams" {
+				continue
+			}
+			if f := o.Path[len(o.Path)-1]; f != "LiquidationThreshold" && f != "ELiquidationThreshold" {
+				return false
+			}
+		}
+		return true
 	}
 	borrowGuard := p.cmpGuard("ratio > liquidation threshold", isVaultRatio, isThreshold, RGT)
 
